@@ -44,6 +44,58 @@ func runC13(p *Prog, r *Report) {
 		lookupRecv: "Buffer", lookup: "newShapePlanCached", cacheRecv: "Buffer", cacheFld: "planCache"})
 	ruleKeyProjection(p, r, keyProjCfg{pkg: "shaping", recv: "HarfbuzzShaper", fn: "Shape", putPkg: "shaping", putRecv: "fontLRU", putFn: "Put", keyArg: 0, valueArg: 1})
 	ruleInv(p, r, invFaceExtents())
+	r.Explain = append(r.Explain, "R-STATE: with P-FX (per-function exposed-read / must-write sets over struct fields, fixpoint over the VTA call graph), every field of the state-holding types of each reusable object that an entry method may read before writing it is classified with a reason; continuation methods may also read what the required initialiser writes on all its paths.")
+	fx := NewFX(p)
+	fx.Run()
+	r.Count("fields_tracked", len(fx.fields))
+	for _, c := range stateConfigs() {
+		ruleState(p, r, fx, c)
+	}
+}
+
+func stateConfigs() []stateCfg {
+	return []stateCfg{
+		{name: "shaping.HarfbuzzShaper",
+			types:   []typeRef{{"shaping", "HarfbuzzShaper"}, {"harfbuzz", "Buffer"}, {"harfbuzz", "otApplyContext"}, {"harfbuzz", "skippingIterator"}, {"harfbuzz", "Font"}},
+			entries: []fnRef{{"shaping", "HarfbuzzShaper", "Shape"}},
+			allowed: map[string]string{
+				"Buffer.planCache":        "cache: completeness of its key is decided by R-KEY/fields",
+				"Font.face":               "ctor-only: field of the cached harfbuzz.Font, which is keyed by the face it captures (R-KEY/projection)",
+				"Font.gsubAccels":         "ctor-only: derived from the face's GSUB at construction",
+				"Font.gposAccels":         "ctor-only: derived from the face's GPOS at construction",
+				"Font.faceUpem":           "ctor-only: derived from the face at construction",
+				"Font.Ptem":               "ctor-only: public knob that the module never assigns (zero from NewFont)",
+				"HarfbuzzShaper.buf":      "identity of the owned buffer, allocated on first use; its state is cleared by Buffer.Clear on every later use (its fields are checked here)",
+				"HarfbuzzShaper.features": "scratch: re-sliced to len(input.FontFeatures) and every element assigned before it is handed to the buffer",
+			}},
+		{name: "harfbuzz.Buffer",
+			types:   []typeRef{{"harfbuzz", "Buffer"}},
+			entries: []fnRef{{"harfbuzz", "Buffer", "Clear"}},
+			allowed: map[string]string{}},
+		{name: "shaping.Segmenter",
+			types:   []typeRef{{"shaping", "Segmenter"}},
+			entries: []fnRef{{"shaping", "Segmenter", "Split"}},
+			allowed: map[string]string{
+				"Segmenter.input":  "read by reset only to nil out pointers of the stale pool before truncating it to length 0",
+				"Segmenter.output": "read by reset only to nil out pointers of the stale pool before truncating it to length 0",
+			}},
+		{name: "shaping.LineWrapper",
+			types:   []typeRef{{"shaping", "LineWrapper"}, {"shaping", "wrapBuffer"}, {"shaping", "breaker"}, {"shaping", "runMapper"}, {"shaping", "WrapConfig"}, {"shaping", "lineConfig"}, {"segmenter", "Segmenter"}},
+			entries: []fnRef{{"shaping", "LineWrapper", "WrapParagraph"}, {"shaping", "LineWrapper", "Prepare"}},
+			conts: []struct{ fn, after fnRef }{{fnRef{"shaping", "LineWrapper", "WrapNextLine"}, fnRef{"shaping", "LineWrapper", "Prepare"}}},
+			allowed: map[string]string{
+				"wrapBuffer.lineExhausted": "growth hint: only decides whether the line slice gets extra capacity",
+				"runMapper.runIdx":         "only decisive when runMapper.valid is set, which Prepare clears (the test is `runIdx != x || !valid`)",
+				"runMapper.mapping":        "scratch capacity handed to mapRunesToClusterIndices3, which rebuilds the whole mapping",
+			}},
+		{name: "segmenter.Segmenter",
+			types:   []typeRef{{"segmenter", "Segmenter"}, {"segmenter", "cursor"}},
+			entries: []fnRef{{"segmenter", "Segmenter", "Init"}},
+			allowed: map[string]string{}},
+	}
+}
+
+func unusedC13() {
 }
 
 func runC14(p *Prog, r *Report) {
@@ -53,6 +105,7 @@ func runC14(p *Prog, r *Report) {
 }
 
 func controlsC13(cp *Prog, r *Report) {
+	controlsState(cp, r)
 	expectControl(r, "R-KEY/fields", func(cr *Report) {
 		ruleKeyFields(cp, cr, keyFieldsCfg{pkg: "cache", keyType: "planGood", initRecv: "planGood", initFn: "init", eqRecv: "planGood", eqFn: "equal", lookupRecv: "buf", lookup: "planGoodCached", cacheRecv: "buf", cacheFld: "good"})
 		ruleKeyFields(cp, cr, keyFieldsCfg{pkg: "cache", keyType: "planBad", initRecv: "planBad", initFn: "init", eqRecv: "planBad", eqFn: "equal", lookupRecv: "buf", lookup: "planBadCached", cacheRecv: "buf", cacheFld: "bad"})
@@ -71,4 +124,15 @@ func controlsInv(cp *Prog, cr *Report) {
 		invalidators: []invalidator{{call: &fnRef{"cache", "extCache", "reset"}, desc: "reset()"}}, exempt: map[string]string{"cache": "the cache"}, floorReads: 3})
 	ruleInv(cp, cr, invCfg{name: "Obj.cand", pkg: "cache", typ: "Obj", compute: []fnRef{{"cache", "Obj", "build"}},
 		invalidators: []invalidator{{storeField: "built", storeFalse: true, desc: "built = false"}}, exempt: map[string]string{"built": "flag", "cand": "the cache"}, floorReads: 1})
+}
+
+func controlsState(cp *Prog, r *Report) {
+	expectControl(r, "R-STATE", func(cr *Report) {
+		fx := NewFX(cp)
+		fx.Run()
+		ruleState(cp, cr, fx, stateCfg{name: "reuse.Wrapper", types: []typeRef{{"reuse", "Wrapper"}, {"reuse", "scratch"}, {"reuse", "mapper"}},
+			entries: []fnRef{{"reuse", "Wrapper", "WrapGood"}, {"reuse", "Wrapper", "WrapBad"}, {"reuse", "Wrapper", "Prepare"}},
+			conts:   []struct{ fn, after fnRef }{{fnRef{"reuse", "Wrapper", "Next"}, fnRef{"reuse", "Wrapper", "Prepare"}}},
+			allowed: map[string]string{"scratch.hint": "growth hint", "mapper.idx": "only decisive when valid", "mapper.m": "scratch capacity"}})
+	}, "reuse.Wrapper/(*reuse.Wrapper).WrapBad/Wrapper.total", "reuse.Wrapper/(*reuse.Wrapper).WrapBad/scratch.leftover")
 }
